@@ -19,9 +19,9 @@ ASSUMPTIONS = ["inputs the docstrings exclude are not generated (identical segme
                "an exception is tolerated (counted) for general arc-arc pairs; for other pairs only TypeError/AttributeError/"
                "IndexError/NameError count as violations, any other exception is 'no output' (the property speaks about returned pairs)"]
 CONFIGS = ['scipy']
-BUDGET = {'quick': 1200, 'thorough': 60000}
+BUDGET = {'quick': 2400, 'thorough': 100000}
 REQUIRED = ['pair:LL', 'pair:LQ', 'pair:QC', 'pair:CC', 'pair:AL', 'pair:LA', 'pair:AC', 'pair:AA', 'cfg:crossing', 'cfg:tangent',
-            'cfg:nearmiss', 'cfg:disjoint', 'cfg:random', 'cfg:endtouch', 'cfg:tjunction', 'paths', 'returned_pairs']
+            'cfg:nearmiss', 'cfg:disjoint', 'cfg:random', 'cfg:endtouch', 'cfg:tjunction', 'paths', 'returned_pairs', 'far_from_origin', 'paths_with_twin_arcs']
 CASE_TIMEOUT = 8
 TIME_LIMIT = {'quick': 250, 'thorough': 3300}
 
@@ -106,7 +106,13 @@ def pair_case(draw, kinds=None, cfgs=None):
         if cfg == 'disjoint':
             size = gen.spec_size([s1, s2])
             s2 = X.shift_spec(s2, complex(3 * size, 2.5 * size))
-    return {'what': 'pair', 'cfg': cfg, 'scale': sc, 's1': s1, 's2': s2, 'P': [P.real, P.imag], 'u1': u1, 'u2': u2}
+    far = 0
+    if draw(st.integers(0, 3)) == 0:
+        # the same configuration far from the origin (map-like coordinates): the curves' size, not their position, is the yardstick
+        far = draw(st.sampled_from([1e3, 1e4, 1e5, 1e6]))
+        off = complex(draw(st.sampled_from([1.0, -1.0, 0.5])), draw(st.sampled_from([0.7, -1.0, 0.0]))) * far * sc
+        s1, s2, P = X.shift_spec(s1, off), X.shift_spec(s2, off), P + off
+    return {'what': 'pair', 'cfg': cfg, 'scale': sc, 's1': s1, 's2': s2, 'P': [P.real, P.imag], 'u1': u1, 'u2': u2, 'far': far}
 
 
 @st.composite
@@ -121,11 +127,21 @@ def paths_case(draw):
     i2 = draw(st.integers(0, len(extra2)))
     p1 = extra1[:i1] + [base['s1']] + extra1[i1:]
     p2 = extra2[:i2] + [base['s2']] + extra2[i2:]
+    # a "lens": an arc preceded by its twin with the other sweep flag (same end points, radii, rotation and large_arc)
+    if base['s1'][0] == 'A' and draw(st.booleans()):
+        tw = list(base['s1'])
+        tw[5] = 1 - tw[5]
+        p1 = [tw] + p1
+    if base['s2'][0] == 'A' and draw(st.booleans()):
+        tw = list(base['s2'])
+        tw[5] = 1 - tw[5]
+        p2 = [tw] + p2
     return {'what': 'paths', 'scale': sc, 'p1': p1, 'p2': p2}
 
 
 def strategy(tier, config):
-    return st.one_of(pair_case(), pair_case(), pair_case(), paths_case())
+    # pairs of lines and arcs only use the closed-form solvers (cheap): they get a share of their own
+    return st.one_of(pair_case(), pair_case(), pair_case(), paths_case(), pair_case(kinds='LLAA'), pair_case(kinds='LA'), pair_case(kinds='LA'))
 
 
 def admissible(spec, scale=None):
@@ -187,6 +203,8 @@ def check_pair(case, ctx):
     pair = s1[0] + s2[0]
     ctx.count('pair:' + pair)
     ctx.count('cfg:' + case['cfg'])
+    if case.get('far'):
+        ctx.count('far_from_origin')
     has_arc = 'A' in pair
     tolerated = general_arc_pair(s1, s2)
     size = max(gen.spec_size([s1]), gen.spec_size([s2]))
@@ -264,6 +282,9 @@ def check_paths(case, ctx):
     if p1 == p2:
         ctx.discard('identical paths')
     ctx.count('paths')
+    for pp in (case['p1'], case['p2']):
+        if any(a[0] == 'A' and b[0] == 'A' and a[:5] == b[:5] and a[6] == b[6] and a[5] != b[5] for a in pp for b in pp):
+            ctx.count('paths_with_twin_arcs')
     has_arc = any(s[0] == 'A' for s in case['p1'] + case['p2'])
     any_general_arc_pair = any(general_arc_pair(x, y) for x in case['p1'] for y in case['p2'])
     size = gen.spec_size(case['p1'] + case['p2'])
